@@ -54,6 +54,19 @@ func orderEvents(r *rand.Rand, evs []*Ev, mode string) []*Ev {
 	}
 	// "lastval": events of one validator are delayed as long as possible
 	var delayed = evs[r.Intn(n)].Cr
+	if mode == "rarelast" {
+		// the validator with the fewest events is delayed as long as possible (its old events arrive very late)
+		cnt := map[idx.ValidatorID]int{}
+		for _, e := range evs {
+			cnt[e.Cr]++
+		}
+		for cr, c := range cnt {
+			if c < cnt[delayed] || (c == cnt[delayed] && cr < delayed) {
+				delayed = cr
+			}
+		}
+		mode = "lastval"
+	}
 	out := make([]*Ev, 0, n)
 	for len(ready) > 0 {
 		var k int
